@@ -41,7 +41,7 @@ CHECKS = {
          "15 expression slots x 13 nesting wrappers x every documented rule (arity 0..4 of each built-in, $left/$right outside on, open names in let values, join kinds, row counts, statement counts): the planted program must fail, its twin must compile; SQL-xor-error on every enumerated source.",
          "rule list of the property statement"),
  "C16": ("model_checking", "explicit-state exploration of input-line histories x channels x read faults on the real binary against a model of the statement loop", "DESIGN.md §4 C16",
-         "Every history of up to k lines over a 19-line alphabet (with and without final newline) is fed to the real pql binary on stdin; shorter histories also through one file, two files split at every line boundary, a file followed by stdin, -o and CRLF; read faults (70 000-byte line at every position, directory, missing file) are injected. Output, exit status and diagnostics are compared with a model that calls the library per statement.",
+         "Every history of up to k lines over a 22-line alphabet (with and without final newline) is fed to the real pql binary on stdin; shorter histories also through one file, two files split at every line boundary, a file followed by stdin, -o and CRLF; read faults (70 000-byte line at every position, directory, missing file) are injected. Output, exit status and diagnostics are compared with a model that calls the library per statement.",
          "model trusts pql.Compile per statement; exit status unspecified for empty statements and a trailing unterminated let"),
  "C09": ("exploration", "bounded-exhaustive input enumeration against a reference tokenizer (explicit-state exploration of the scanner)", "DESIGN.md §4 C09",
          "Every byte string over a 36-symbol adversarial alphabet (and number/string/identifier sub-alphabets) up to a stated length is scanned by the real lexer and compared token by token with an independently written longest-match tokenizer; partition, re-scan and accessor laws are checked on each. Complete below the bound, silent beyond it.",
